@@ -68,6 +68,8 @@ func (p *regExpParser) scan() {
 		case '[':
 			p.pass()
 			p.scanBracket()
+		case '{':
+			p.scanBrace()
 		case ')':
 			p.error(-1, "Unmatched ')'")
 			p.invalid = true
@@ -107,6 +109,8 @@ func (p *regExpParser) scanGroup() {
 		case '[':
 			p.pass()
 			p.scanBracket()
+		case '{':
+			p.scanBrace()
 		default:
 			p.pass()
 			continue
@@ -118,6 +122,46 @@ func (p *regExpParser) scanGroup() {
 		return
 	}
 	p.pass()
+}
+
+// scanBrace copies a quantifier {n}, {n,} or {n,m} without the leading zeros of
+// its counts: ECMAScript allows them (DecimalDigits), re2 would fall back to
+// reading the braces as literal text.
+func (p *regExpParser) scanBrace() {
+	str := p.str[p.chrOffset:]
+	trim := func(digits string) string {
+		for len(digits) > 1 && digits[0] == '0' {
+			digits = digits[1:]
+		}
+		return digits
+	}
+	i := 1
+	for i < len(str) && '0' <= str[i] && str[i] <= '9' {
+		i++
+	}
+	if i == 1 || i == len(str) {
+		p.pass()
+		return
+	}
+	out := "{" + trim(str[1:i])
+	if str[i] == ',' {
+		j := i + 1
+		for j < len(str) && '0' <= str[j] && str[j] <= '9' {
+			j++
+		}
+		out += ","
+		if j > i+1 {
+			out += trim(str[i+1 : j])
+		}
+		i = j
+	}
+	if i == len(str) || str[i] != '}' {
+		p.pass()
+		return
+	}
+	p.goRegexp.WriteString(out + "}")
+	p.offset = p.chrOffset + i + 1
+	p.read()
 }
 
 // [...].
